@@ -16,7 +16,11 @@ ASSUMPTIONS = [
 
 
 def tasks(tier):
-    return codec.layout_tasks("C01/") + codec.primitive_tasks("C01/")
+    from contracts import listcodec as LC
+    lists = [LC.ListLemmaTask("C01/"), LC.EncodeItemsTask("PDU"), LC.EncodeItemsTask("PDUItem")]
+    lists += [LC.SplitFramingTask(k) for k in LC.SPLITTERS]
+    lists += [LC.WrapGenerateItemsTask("PDU"), LC.WrapGenerateItemsTask("PDUItem")]
+    return codec.layout_tasks("C01/") + codec.primitive_tasks("C01/") + lists
 
 
 def replay(rec):
